@@ -205,6 +205,6 @@ def check_select(case, ev):
 
 def parts(tier):
     return [
-        Part("solve", strategy=lambda t: solve_case(t), check=check_solve, quick=(5, 150), thorough=(10, 2500)),
-        Part("select", strategy=lambda t: select_case(t), check=check_select, quick=(3, 150), thorough=(6, 2500)),
+        Part("solve", strategy=lambda t: solve_case(t), check=check_solve, quick=(5, 400), thorough=(10, 2500)),
+        Part("select", strategy=lambda t: select_case(t), check=check_select, quick=(3, 400), thorough=(6, 2500)),
     ]
